@@ -562,6 +562,23 @@ impl Sys for ChainSys {
                 format!("after {}: block {m:?} is finalized per held certificates and known parent links but was not reported", op.show()),
             );
         }
+        // C01: what a node finalizes is a function of the certificates and blocks it holds, not of
+        // the order they came in - two correct nodes holding the same inputs agree.
+        for e in rep.difference(&want) {
+            out.push(
+                "C01:finalized-set-depends-on-delivery-order".to_string(),
+                format!("after {}: block {e:?} reported finalized; a node given the same certificates and blocks in another order finalizes {want:?}", op.show()),
+            );
+        }
+        {
+            let mut per_slot: BTreeMap<u64, BTreeSet<u8>> = BTreeMap::new();
+            for b in &rep {
+                per_slot.entry(b.slot).or_default().insert(b.idx);
+            }
+            for (s, bs) in per_slot.iter().filter(|(_, bs)| bs.len() > 1) {
+                out.push("C01:two-blocks-finalized-in-one-slot".to_string(), format!("after {}: slot {s} has finalized blocks {bs:?}", op.show()));
+            }
+        }
         for e in rep.difference(&want) {
             out.push(
                 "C08:unjustified-finalization-reported".to_string(),
